@@ -383,6 +383,7 @@ func c10(r *rep.Run) {
 		}
 	})
 	c10Declarations(r)
+	c10ConstantCalls(r)
 	r.Cov["programs_completed"] = done
 	r.Cov["declared_stateless_calls_during_compile"] = compileCalls
 	r.Cov["programs_changed_by_folding(CF,CF+FE)"] = folded
@@ -517,4 +518,99 @@ func c10Declarations(r *rep.Run) {
 		}
 	}
 	r.Cov["declaration_histories"] = histories
+}
+
+// c10ConstantCalls: every builtin name and alias applied to every tuple of
+// CONSTANT operands (arity 0..3 over a mixed-type alphabet: wrong counts,
+// wrong types, zero divisors, bad version/date texts among them), bare and in
+// either branch of an `if` whose condition is a variable, under all 16
+// optimisation subsets. Whatever the call does, Compile must succeed; the
+// failure (or value) the reference assigns to the call appears when and only
+// when the call is reached.
+func c10ConstantCalls(r *rep.Run) {
+	all := sweepOperands()
+	small := []*term.Term{term.Const(1), term.Const(0), term.Const(true), term.Const("a")}
+	type job struct {
+		name string
+		args []*term.Term
+	}
+	var jobs []job
+	var rec func(name string, cur []*term.Term, ar int, ops []*term.Term)
+	rec = func(name string, cur []*term.Term, ar int, ops []*term.Term) {
+		if len(cur) == ar {
+			jobs = append(jobs, job{name, append([]*term.Term(nil), cur...)})
+			return
+		}
+		for _, o := range ops {
+			rec(name, append(cur, o), ar, ops)
+		}
+	}
+	for _, n := range sweepNames {
+		if n == "if" || term.IsAnd(n) || term.IsOr(n) {
+			continue // and/or over ill-typed constants is C18's open finding; if with a wrong count is a syntax error
+		}
+		for ar := 0; ar <= 3; ar++ {
+			ops := all
+			if ar == 3 && !r.Thorough() {
+				ops = small
+			}
+			rec(n, nil, ar, ops)
+		}
+		rec(n, nil, 4, small)
+	}
+	hs := harnesses(r.Workers)
+	vars := []term.VarDecl{{Name: "c", Ty: B}}
+	var compiles, evals, failing int64
+	r.ParallelFor(len(jobs), func(w, i int) {
+		j := jobs[i]
+		h := hs[w]
+		core := term.Op(j.name, term.TX, j.args...)
+		cv, cerr := envFor(nil, nil).Eval(core)
+		if cerr == ref.ErrUndefined {
+			return
+		}
+		if cerr != nil {
+			atomic.AddInt64(&failing, 1)
+		}
+		r.Note(w, core.Src())
+		ctxs := []*term.Term{core, term.If(term.Var("c", B), core, term.Const(7)), term.If(term.Var("c", B), term.Const(7), core)}
+		for ci, t := range ctxs {
+			src := t.Src()
+			for b := 0; b < 16; b++ {
+				o := drive.FromBits(b)
+				cfg := h.NewConfig(vars, o)
+				e, err := h.Compile(cfg, src, 0)
+				atomic.AddInt64(&compiles, 1)
+				d := caseDesc(src, o, nil, nil, nil, nil)
+				if err != nil {
+					r.Violate("compile-fails", "call"+j.name+o.String(), sprintf("Compile fails on %s under %s (whatever a call over constants does is deferred to Eval, and only if it is reached): %v", src, o, err), d)
+					continue
+				}
+				for _, cval := range []bool{false, true} {
+					if ci == 0 && cval {
+						continue
+					}
+					f := drive.NewFetcher(h, vars, o)
+					f.Vals[0] = cval
+					h.Reset()
+					got := h.Eval(e, f)
+					atomic.AddInt64(&evals, 1)
+					want := refOut(cv, cerr)
+					if (ci == 1 && !cval) || (ci == 2 && cval) {
+						want = drive.Out{Val: int64(7)}
+					}
+					if !drive.SameOutcome(got, want) {
+						r.Violate("constant-call-outcome", "call"+j.name+o.String(), sprintf("%s with c=%v under %s: Eval=%s, the reference gives %s", src, cval, o, got, want), d)
+					}
+				}
+			}
+		}
+		if i%4001 == 0 {
+			r.Sample(8, map[string]interface{}{"constant_call": core.Src()})
+		}
+	})
+	r.Cov["constant_call_tuples"] = len(jobs)
+	r.Cov["constant_call_tuples_failing_at_run_time"] = failing
+	r.Cov["constant_call_compilations"] = compiles
+	r.Add(0, compiles+evals, evals, evals, failing)
 }
